@@ -209,7 +209,7 @@ func FlattenTree(goitDir Store, treeID string) ([]PathID, error) {
 }
 
 func flatten(goitDir Store, treeID, prefix string, depth int) ([]PathID, error) {
-	if depth > 64 {
+	if depth > 100000 {
 		return nil, errors.New("tree nesting too deep")
 	}
 	o, err := ReadObject(goitDir, treeID)
@@ -255,7 +255,7 @@ func FlattenTreeLoose(goitDir Store, treeID string) ([]PathID, error) {
 }
 
 func flattenLoose(goitDir Store, treeID, prefix string, depth int) ([]PathID, error) {
-	if depth > 64 {
+	if depth > 100000 {
 		return nil, errors.New("tree nesting too deep")
 	}
 	o, err := ReadObject(goitDir, treeID)
